@@ -23,6 +23,22 @@ type Pred struct {
 	LimitEq  int64  `json:"limiteq,omitempty"`  // 1+limit that must have been passed (0: no clause)
 	LimitNe  int64  `json:"limitne,omitempty"`  // 1+limit that must not have been passed
 	Never    bool   `json:"never,omitempty"`    // rejects everything
+	// PanicPrefix (hex): a detector with a bug - it panics when raw starts with these
+	// bytes (the caller recovers, as net/http does for every handler). The model does
+	// not say what a detection of such an input returns; it says that nothing else changes.
+	PanicPrefix string `json:"panic_prefix,omitempty"`
+}
+
+// DetectorPanic is the value a trap detector panics with.
+type DetectorPanic struct{ Ext int }
+
+// Traps reports whether raw makes the detector panic.
+func (p Pred) Traps(raw []byte) bool {
+	if p.PanicPrefix == "" {
+		return false
+	}
+	pre, err := hex.DecodeString(p.PanicPrefix)
+	return err == nil && bytes.HasPrefix(raw, pre)
 }
 
 // Eval evaluates the predicate; it is what the registered detector computes.
@@ -58,6 +74,9 @@ func (p Pred) String() string {
 	var s []string
 	if p.Never {
 		s = append(s, "never")
+	}
+	if p.PanicPrefix != "" {
+		s = append(s, "panics-on:"+p.PanicPrefix)
 	}
 	if p.Prefix != "" {
 		s = append(s, "prefix:"+p.Prefix)
